@@ -123,6 +123,45 @@ def shard(args):
     return ob.n, ob.bad
 
 
+def powerset_shard(args):
+    """accepted <=> valid for *every* subset of the 19 recognised names (2^19), vector.obj and (thorough tier) the six object classes"""
+    idx, nshards, with_classes = args
+    O.install()
+    import vector
+    ob = O.Obligations("C06")
+    toks = {n: T(f"v_{n}") for n in KNOWN}
+    classes = {(2, False): vector.VectorObject2D, (3, False): vector.VectorObject3D, (4, False): vector.VectorObject4D,
+               (2, True): vector.MomentumObject2D, (3, True): vector.MomentumObject3D, (4, True): vector.MomentumObject4D}
+    nk = len(KNOWN)
+    for mask in range(idx, 1 << nk, nshards):
+        if bin(mask).count("1") <= 5:
+            continue            # covered in full detail by shard()
+        names = tuple(KNOWN[i] for i in range(nk) if mask >> i & 1)
+        sp = spec(names)
+        vals = {n: toks[n] for n in names}
+        try:
+            v = vector.obj(**vals)
+            acc = True
+        except TypeError:
+            acc = False
+        except Exception as e:
+            ob.check("obj/raises-only-TypeError{" + ",".join(names) + "}", False, f"{type(e).__name__}: {e}")
+            continue
+        ob.check("obj/accepted-iff-valid{" + ",".join(names) + "}", acc == (sp is not None), dict(accepted=acc, valid=sp is not None))
+        if with_classes:
+            for (dim, mom), cls in classes.items():
+                try:
+                    cls(**vals)
+                    acc2 = True
+                except TypeError:
+                    acc2 = False
+                except Exception as e:
+                    ob.check(f"{cls.__name__}/raises-only-TypeError{{" + ",".join(names) + "}", False, f"{type(e).__name__}: {e}")
+                    continue
+                ob.check(f"{cls.__name__}/accepted-iff-valid{{" + ",".join(names) + "}", acc2 == (sp is not None and sp["dim"] == dim))
+    return ob.n, ob.bad
+
+
 def array_shard(args):
     """array constructors on every name set with columns of distinct sentinel values"""
     idx, nshards, maxk = args
@@ -202,8 +241,10 @@ def main(argv):
     ns = 16
     res = C.pool_map(shard, [(i, ns, maxk) for i in range(ns)])
     ares = C.pool_map(array_shard, [(i, ns, amaxk) for i in range(ns)])
-    n_obj, n_arr = sum(r[0] for r in res), sum(r[0] for r in ares)
-    bad = [b for r in res + ares for b in r[1]]
+    pres = C.pool_map(powerset_shard, [(i, ns, C.tier() == "thorough") for i in range(ns)])
+    n_pow = sum(r[0] for r in pres)
+    n_obj, n_arr = sum(r[0] for r in res) + n_pow, sum(r[0] for r in ares)
+    bad = [b for r in res + ares + pres for b in r[1]]
     nsets = sum(1 for _ in all_name_sets(maxk))
     groups = {}
     for oid, detail in bad:
@@ -228,6 +269,8 @@ def main(argv):
     coverage = dict(obligations=n - nk, discharged=n - len(bad), obligations_posed=n, known_findings=nk, name_sets=nsets, exhaustive=True,
                     by_backend={"real constructors executed on symbolic values, all name sets of <= 5 of the 19 names (+ unknown names)": n_obj,
                                 f"array constructors on sentinel columns, all name sets of <= {amaxk} names (bounded in array shape: 2 rows)": n_arr},
+                    all_subsets_of_the_19_names=dict(obligations=n_pow, rule="accepted <=> valid for every one of the 2^19 subsets with more than 5 names (vector.obj; plus the six object classes in the thorough tier); "
+                                                      "beyond the statement's quantifier (<= 5 names) - replaces the AST->z3 encoding of the design"),
                     checker_cmd=f"./check C06 --tier {C.tier()}",
                     trusted_base=["parametricity of the object constructors in the coordinate values (tokens are numbers.Real; a token cannot be inspected without raising)",
                                   "the grammar of valid coordinate sets in vv/props/c06.py::spec is the statement of C06", "CPython keyword-argument semantics"],
